@@ -72,7 +72,7 @@ def _consts(**kw: Any) -> Dict[str, Any]:
         "Metas": R("<- MC_Metas"), "ListOf": R("<- MC_ListOf"), "MansOf": R("<- MC_MansOf"), "DataOf": R("<- MC_DataOf"),
         "RowsOf": R("<- MC_RowsOf"), "AltRowsOf": R("<- MC_AltRowsOf"), "Sibling": R("<- MC_Sibling"),
         "Filters": R("<- MC_Filters"), "Sel": R("<- MC_Sel"), "Pruned": R("<- MC_Pruned"),
-        "Doubles": "few", "KMax": KMAX, "Reduced": True,
+        "Doubles": "few", "KSet": set(range(1, KMAX + 1)), "Reduced": True,
     }
     d.update(kw)
     return d
@@ -82,10 +82,11 @@ def _dmg_key(dmg: Iterable[Iterable[Any]]) -> Tuple[Tuple[str, str], ...]:
     return tuple(sorted((str(x[0]), str(x[-1])) for x in dmg))
 
 
-def _run_models(ctx: Ctx, quick: bool) -> Tuple[Dict[str, Any], Dict[Any, Dict[str, Any]], List[Dict[str, Any]]]:
+def _run_models(ctx: Ctx, quick: bool, companions: bool = True) -> Tuple[Dict[str, Any], Dict[Any, Dict[str, Any]], List[Dict[str, Any]]]:
     out = os.path.join(scratch_dir("c14out"), "cases.ndjson")
     workers = 4 if quick else 8
-    base = dict(Doubles="few" if quick else "all", Reduced=quick)
+    # quick: k = 1 (first exists), 3 (Avro open -> JSON fallback), 4 (fallback read), KMAX (never fires)
+    base = dict(Doubles="few" if quick else "all", Reduced=quick, KSet={1, 3, 4, KMAX} if quick else set(range(1, KMAX + 1)))
     cfg = tlc.make_cfg(spec="Spec", constants=_consts(**base), invariants=["VerdictKF", "Sane", "NoNeedlessRaise"],
                        postcondition="Export", check_deadlock=False)
     res = tlc.run_tlc("MC_ReadPath", cfg, env={"VERIF_OUT": out}, timeout_s=900, workers=workers,
@@ -96,8 +97,14 @@ def _run_models(ctx: Ctx, quick: bool) -> Tuple[Dict[str, Any], Dict[Any, Dict[s
                       f"TLC: {res.violated} violated in the read-path model (transcription of the read path vs the reference rule)",
                       res.error_trace[:6000])
         raise _Abort()
+    if companions:
+        _companions(ctx, quick, base, workers)
+    return _load_export(ctx, out, res)
+
+
+def _companions(ctx: Ctx, quick: bool, base: Dict[str, Any], workers: int) -> None:
     # anti-vacuity: without the carve-outs the as-is model must break the rule (the two open findings)
-    cfg0 = tlc.make_cfg(spec="Spec", constants=_consts(Doubles="none", Reduced=True), invariants=["Verdict"], check_deadlock=False)
+    cfg0 = tlc.make_cfg(spec="Spec", constants=_consts(Doubles="none", Reduced=True, KSet={1}), invariants=["Verdict"], check_deadlock=False)
     res0 = tlc.run_tlc("MC_ReadPath", cfg0, timeout_s=600, workers=workers, label="MC_ReadPath as-is, Verdict without carve-outs (must fail)")
     if "Verdict" not in res0.violated:
         raise MachineryError("anti-vacuity: the as-is model no longer violates Verdict (findings fixed or model changed?)")
@@ -111,7 +118,7 @@ def _run_models(ctx: Ctx, quick: bool) -> Tuple[Dict[str, Any], Dict[Any, Dict[s
     av = ["as-is model violates Verdict without carve-outs", "repaired model satisfies VerdictRepaired"]
     if not quick:
         for flag in ("ChecksumEnforced", "VerifyDefault"):
-            cfgm = tlc.make_cfg(spec="Spec", constants=_consts(Doubles="none", Reduced=True, **{flag: False}),
+            cfgm = tlc.make_cfg(spec="Spec", constants=_consts(Doubles="none", Reduced=True, KSet={1}, **{flag: False}),
                                 invariants=["VerdictKF"], check_deadlock=False)
             resm = tlc.run_tlc("MC_ReadPath", cfgm, timeout_s=600, workers=workers, label=f"MC_ReadPath {flag}=FALSE (must fail)")
             if "VerdictKF" not in resm.violated:
@@ -119,6 +126,8 @@ def _run_models(ctx: Ctx, quick: bool) -> Tuple[Dict[str, Any], Dict[Any, Dict[s
             av.append(f"{flag}=FALSE violates VerdictKF")
     ctx.cov["anti_vacuity"] = av
 
+
+def _load_export(ctx: Ctx, out: str, res: Any) -> Tuple[Dict[str, Any], Dict[Any, Dict[str, Any]], List[Dict[str, Any]]]:
     recs = [json.loads(line) for line in open(out)]
     graph = recs[0]
     cases = recs[1:]
@@ -440,15 +449,39 @@ def iparse(kind: str, b: bytes) -> Tuple[bool, Any]:
                 return True, d[key]
             return False, ("json_object" if isinstance(d, dict) else "json-non-object")
         if kind == "data":
-            import pyarrow.parquet as pq
-
-            t = pq.read_table(io.BytesIO(b))
-            return True, (str(t.schema), t.to_pylist())
+            return _iparse_parquet(b)
         if kind == "hint":
             return (project.parse_hint(b)["name"] is not None), project.parse_hint(b)["name"]
     except Exception as e:  # noqa: BLE001
         return False, type(e).__name__
     return False, "?"
+
+
+def _iparse_parquet(b: bytes) -> Tuple[bool, Any]:
+    """A parquet file "parses" if EITHER pyarrow entry point (whole-table read, batch iterator) reads
+    it; its logical content is the schema, the rows each entry point returns, and the footer
+    metadata (row counts and column statistics steer filtered / batched reads, so a flipped
+    statistic is an ALTERED file even when an unfiltered read returns the same rows)."""
+    import pyarrow.parquet as pq
+
+    rows_rt = rows_it = md = schema = None
+    err = "?"
+    try:
+        t = pq.read_table(io.BytesIO(b))
+        rows_rt, schema = t.to_pylist(), str(t.schema)
+    except Exception as e:  # noqa: BLE001
+        err = type(e).__name__
+    try:
+        pf = pq.ParquetFile(io.BytesIO(b))
+        rows_it = [r for bt in pf.iter_batches(batch_size=2) for r in bt.to_pylist()]
+        md = pf.metadata.to_dict()
+        md.pop("created_by", None)
+        schema = schema or str(pf.schema_arrow)
+    except Exception as e:  # noqa: BLE001
+        err = type(e).__name__
+    if rows_rt is None and rows_it is None:
+        return False, err
+    return True, (schema, rows_rt, rows_it, json.dumps(md, sort_keys=True, default=str))
 
 
 def classify(tab: Tab, role: str, new: Optional[bytes], planned: str) -> str:
@@ -799,7 +832,12 @@ class Judge:
                 self.raise_after_yield[f"{api}"] += 1
                 self.max_yield_before_raise = max(self.max_yield_before_raise, out["yielded"])
         partial_real = any(x.partial for x in reals)
-        culprit_desc = "+".join(sorted(f"{KIND[r]}.{c}" for r, c in dmg if r in case["culprits"])) or \
+        # the signature names the culprit CLOSEST TO THE ROOT of the file graph (a lost metadata file
+        # decides the outcome before any list / manifest / data file below it is looked at)
+        depth = {"meta": 0, "list": 1, "manifest": 2, "data": 3, "hint": 4}
+        culp = [(r, c) for r, c in dmg if r in case["culprits"]]
+        top = min((depth[KIND[r]] for r, _ in culp), default=None)
+        culprit_desc = "+".join(sorted({f"{KIND[r]}.{c}" for r, c in culp if depth[KIND[r]] == top})) or \
             "harmless(" + "+".join(sorted(f"{KIND[r]}.{c}" for r, c in dmg)) + ")"
         fam = "rows" if api in ROW_APIS else api
         bad = None
@@ -823,7 +861,7 @@ class Judge:
             self.drift += 1
             self.drift_detail[f"{'+'.join(sorted(KIND[r] + '.' + c for r, c in dmg))}:{fam}:model={case['kind']}:code={kind}"] += 1
         if bad:
-            sig = f"{culprit_desc}:{fam}:{kind}"
+            sig = f"{culprit_desc}:{fam}:{'no-raise' if ref == 'must_raise' else kind}"
             what = (f"{label}(verify_checksums={VOPT[vopt]!r}, filter={FILTERS[filt]!r}, columns={proj!r}, "
                     f"{'fresh handle' if fresh else 'handle opened before the damage'}) on a table with "
                     f"{', '.join(x.tag() for x in reals) or dmg} {bad}"
@@ -962,6 +1000,14 @@ def run(ctx: Ctx) -> None:
     _selfcheck(tab, handle)
     judge = Judge(ctx, tab, index)
     r = rng(ctx.seed, "c14")
+    import time as _time
+    phases: Dict[str, float] = {"tlc+build": round(_time.time() - ctx.t0, 1)}
+    _t = _time.time()
+
+    def _phase(name: str) -> None:
+        nonlocal _t
+        phases[name] = round(_time.time() - _t, 1)
+        _t = _time.time()
 
     # ---- undamaged + single damage: every role, every class, several realisations ----
     _exercise(judge, tab, handle, [], all_options())
@@ -989,7 +1035,7 @@ def run(ctx: Ctx) -> None:
                     continue
                 opts = sampled_options(i, role, small=not first or older)
             else:
-                opts = all_options() if (first or x.planned != "flip" and per_class[x.cls] <= 4) else sampled_options(i, role)
+                opts = all_options() if (first and not older or x.planned != "flip" and per_class[x.cls] <= 2 and not older) else sampled_options(i, role)
             _exercise(judge, tab, handle, [x], opts)
             n_real += 1
     for role, need in need_classes.items():
@@ -997,6 +1043,7 @@ def run(ctx: Ctx) -> None:
         if missing:
             raise MachineryError(f"no concrete realisation for model classes {missing} of {role}")
     ctx.cov["realisations_single"] = n_real
+    _phase("single")
 
     # ---- double damage (the pairs the model exported) ----
     pairs = sorted({_dmg_key(c["dmg"]) for c in cases if len(c["dmg"]) == 2})
@@ -1016,6 +1063,7 @@ def run(ctx: Ctx) -> None:
         _exercise(judge, tab, handle, reals, all_options() if (not quick and pi % 4 == 0) else sampled_options(pi, pair[0][0], small=not quick or pi % 2 == 1))
         n_pairs += 1
     ctx.cov["double_damage_pairs"] = n_pairs
+    _phase("double")
 
     # ---- transient faults ----
     if quick:
@@ -1033,6 +1081,7 @@ def run(ctx: Ctx) -> None:
             _transient_runs(judge, tab, handle, role, all_options(), lambda oi: range(1, 9), cap=8)
             _transient_runs(judge, tab, handle, role, sampled_options(ri, role), lambda oi: range(9, 2000), cap=2000)
 
+    _phase("transient")
     # ---- thorough: every prefix length, every byte flipped, for the files the current snapshot needs ----
     if not quick:
         n_sweep = 0
@@ -1044,11 +1093,16 @@ def run(ctx: Ctx) -> None:
                 _exercise(judge, tab, handle, [x], sampled_options(i, role, small=True))
                 n_sweep += 1
         ctx.cov["sweep_realisations"] = n_sweep
+        _phase("sweep")
         _wide_variant(ctx, judge, graph)
+        _phase("wide")
 
     # the table must be intact again
     _selfcheck(tab, handle)
     judge.finish()
+    ctx.cov["phase_wall_s"] = phases
+    hit = {h["signature"] for h in ctx.known_hits}
+    ctx.cov["known_findings_not_reproduced"] = sorted(k["signature"] for k in ctx._known if k["signature"] not in hit)
     shutil.rmtree(os.path.dirname(root), ignore_errors=True)
     ctx.cov["exhaustive"] = True
     ctx.rule("cases = TLC behaviours of MC_ReadPath (file x damage class [x k-th call for transient] x API x verify option x "
@@ -1078,7 +1132,7 @@ def _wide_variant(ctx: Ctx, judge0: Judge, graph: Dict[str, Any]) -> None:
 
     root = os.path.join(scratch_dir("c14wide"), "t")
     t = create_table(root, _schema())
-    nfiles = 64
+    nfiles = 170
     with t.new_transaction() as tx:
         for j in range(nfiles):
             tx.append_data([{"k": 100 * j + i, "s": f"w{j}_{i}"} for i in range(2)])
@@ -1105,9 +1159,10 @@ def _wide_variant(ctx: Ctx, judge0: Judge, graph: Dict[str, Any]) -> None:
     handle = load_table(root)
     cuts = set()
     for name, (lo, hi) in reg.items():
-        for x in (lo - 1, lo, lo + 1, hi - 1, hi, hi + 1):
-            if 0 <= x < len(raw):
-                cuts.add(x)
+        if name.startswith("blk") and name.endswith(("_count", "_sync")) or name == "hdr_sync":
+            for x in (lo - 1, lo, lo + 1, hi - 1, hi):
+                if 0 <= x < len(raw):
+                    cuts.add(x)
     obs = collections.Counter()
     p = os.path.join(root, m1r)
     try:
@@ -1116,9 +1171,10 @@ def _wide_variant(ctx: Ctx, judge0: Judge, graph: Dict[str, Any]) -> None:
             ok, content = iparse("manifest", new)
             with open(p, "wb") as f:
                 f.write(new)
-            for label, fn in (("scan", lambda h: _ms(h.scan())), ("scan_batches", lambda h: _ms([r for b in h.scan_batches(batch_size=1000) for r in b])),
+            for label, fn in (("scan", lambda h: _ms(h.scan(verify_checksums=False))),
+                              ("scan_batches", lambda h: _ms([r for b in h.scan_batches(batch_size=1000) for r in b])),
                               ("row_count", lambda h: h.row_count())):
-                for fresh in (False, True):
+                for fresh in ((x % 2 == 0),):
                     try:
                         h = load_table(root) if fresh else handle
                         ans = fn(h)
@@ -1155,7 +1211,7 @@ def replay(ctx: Ctx, path: str) -> None:
         payload = json.load(f)["replay"]
     if isinstance(payload, str) or payload.get("wide"):
         raise MachineryError("this replay file records a model-level or wide-variant result; re-run the check instead")
-    graph, index, _cases = _run_models(ctx, True)
+    graph, index, _cases = _run_models(ctx, True, companions=False)
     root = os.path.join(scratch_dir("c14replay"), "t")
     tab = build_table(root, graph)
     handle = load_table(root)
